@@ -106,8 +106,19 @@ type RPCCase struct {
 	ContentEncoding string `json:"content_encoding,omitempty"`
 	Accept          string `json:"accept,omitempty"`
 	LockStep        bool   `json:"lock_step,omitempty"`
-	Client          string `json:"client,omitempty"` // lock-step lane: h1-http | h2c-http | grpc | h1-web
-	Opts            Opts   `json:"opts"`
+	// Entry-path lane (entry.go), gRPC and gRPC-web only: request header values
+	// sent verbatim. RawTimeout is a grpc-timeout value that does not make the
+	// call end (malformed, or valid and hours long); Compressed sets the
+	// compressed flag of every request frame (really gzipped). Entry is the
+	// structural class label of the value (finding keys, distinct keys).
+	RawTimeout   string `json:"raw_timeout,omitempty"`
+	GrpcEncoding string `json:"grpc_encoding,omitempty"`
+	GrpcAccept   string `json:"grpc_accept_encoding,omitempty"`
+	GrpcCT       string `json:"grpc_content_type,omitempty"`
+	Compressed   bool   `json:"compressed,omitempty"`
+	Entry        string `json:"entry,omitempty"`
+	Client       string `json:"client,omitempty"` // lock-step lane: h1-http | h2c-http | grpc | h1-web
+	Opts         Opts   `json:"opts"`
 }
 
 func (c *RPCCase) unary() bool   { return c.Method == "Echo" }
@@ -817,12 +828,22 @@ func (s *rpcSvc) request(c *RPCCase, id string) (*http.Request, bool) {
 	case "grpc", "web", "webtext":
 		var framed []byte
 		for _, m := range msgs {
-			framed = append(framed, wire.Frame(m, false)...)
+			if c.Compressed {
+				m = wire.Gzip(m)
+			}
+			framed = append(framed, wire.Frame(m, c.Compressed)...)
 		}
+		c.entryHeaders(hdr)
+		var req *http.Request
 		if c.Proto == "grpc" {
-			return wire.GRPCRequest(full, hdr, bytes.NewReader(framed)), false
+			req = wire.GRPCRequest(full, hdr, bytes.NewReader(framed))
+		} else {
+			req = wire.WebRequest(full, hdr, framed, c.Proto == "webtext", "")
 		}
-		return wire.WebRequest(full, hdr, framed, c.Proto == "webtext", ""), false
+		if c.GrpcCT != "" {
+			req.Header["Content-Type"] = []string{c.GrpcCT}
+		}
+		return req, false
 	}
 	path := map[string]string{"Echo": "/p/echo", "CS": "/p/cs", "SS": "/p/ss", "Bidi": "/p/bidi"}[c.Method]
 	if path == "" {
@@ -1010,7 +1031,17 @@ func (s *rpcSvc) check(c *RPCCase, o *outcome) (vs []viol, obs map[string]int) {
 	// a request the mux refuses before dispatch (its Content-Encoding cannot be
 	// undone: body-less or garbage under gzip): no interceptor obligation
 	refusedBeforeDispatch := (c.ContentEncoding == "gzip-garbage" || (c.ContentEncoding == "gzip" && o.Bodyless)) && count(ev, "h", "enter") == 0 && count(ev, "h", "glue-enter") == 0
-	if c.unary() && nUI == 0 && (c.ContentType != "" || c.Accept != "" || c.ContentEncoding != "") && (count(ev, "h", "recv-err") > 0 || c.proxied() || refusedBeforeDispatch) {
+	// entry lane: a gRPC / gRPC-web request the mux answered without
+	// dispatching it (malformed grpc-timeout, unknown grpc-encoding, content
+	// type without codec ...): no handler step, no interceptor step
+	refusedAtEntry := c.entry() && nUI == 0 && nSI == 0 && countSrc(ev, "h") == 0
+	if refusedAtEntry {
+		obs["entry_calls_refused_before_dispatch"]++
+		refusedBeforeDispatch = true
+	} else if c.entry() {
+		obs["entry_calls_dispatched"]++
+	}
+	if c.unary() && nUI == 0 && (c.ContentType != "" || c.Accept != "" || c.ContentEncoding != "" || c.entry()) && (count(ev, "h", "recv-err") > 0 || c.proxied() || refusedBeforeDispatch) {
 		// the request could not be decoded (no codec for the media type):
 		// generated code fails in front of the interceptor; for a proxied
 		// method that step is inside larking's forwarder
@@ -1159,6 +1190,14 @@ func (s *rpcSvc) check(c *RPCCase, o *outcome) (vs []viol, obs map[string]int) {
 		}
 	}
 	obs["stats_events"] += len(st)
+	if refusedAtEntry && len(st) == 0 {
+		// refused in front of the stats block: nothing was begun, nothing to end
+		obs["entry_refused_without_stats_events"]++
+		return vs, obs
+	}
+	if refusedAtEntry {
+		obs["entry_refused_with_stats_events"]++
+	}
 	nTag := count(st, "st", "Tag")
 	if nTag != 1 {
 		add(fmt.Sprintf("%s:stats-rpc-tagged-%d-times", pc, min(nTag, 2)), fmt.Sprintf("TagRPC was called %d times for one RPC (%s)", nTag, full))
@@ -1500,7 +1539,7 @@ func (g *c18run) group(base RPCCase, optsList []Opts) {
 		}
 		if out.Panic != nil {
 			g.r.Count("panics", 1)
-			g.r.Violate(out.Panic.Key()+":"+c.sizeClass(), fmt.Sprintf("%s %s %s with %s panicked: %s", c.Target, c.Proto, c.Method, o.key(), out.Panic.Value), &c)
+			g.r.Violate(out.Panic.Key()+":"+c.sizeClass()+c.entrySuffix(), fmt.Sprintf("%s %s %s with %s panicked: %s", c.Target, c.Proto, c.Method, o.key(), out.Panic.Value), &c)
 			continue
 		}
 		var vs []viol
@@ -1514,7 +1553,13 @@ func (g *c18run) group(base RPCCase, optsList []Opts) {
 			g.r.Count(k, n)
 		}
 		for _, v := range vs {
-			g.r.Violate(v.key, v.what, map[string]any{"part": "rpc", "case": &c, "events": out.Events, "transcript": out.Transcript})
+			g.r.Violate(v.key+c.entrySuffix(), v.what, map[string]any{"part": "rpc", "case": &c, "events": out.Events, "transcript": out.Transcript})
+		}
+		if c.entry() {
+			g.r.Count("entry_rpcs_with_options", 1)
+			if out.GOK && out.GCode == 0 {
+				g.r.Count("entry_rpcs_succeeded_with_options", 1)
+			}
 		}
 		plain := c
 		plain.Opts = Opts{}
@@ -1565,6 +1610,10 @@ func (g *c18run) group(base RPCCase, optsList []Opts) {
 			if c.ended() {
 				endKind = fmt.Sprintf("/ended(timeout=%s,wait=%v,mid=%v,pre=%v)", c.Timeout, c.WaitCtx, c.CancelMid, c.PreCancel)
 			}
+			if c.entry() {
+				endKind += "/entry:" + c.Entry
+				g.r.Count("entry_outcomes_equal_to_reference", 1)
+			}
 			g.r.Distinct(fmt.Sprintf("%s/%s/%s/%s/fail=%v/%s%s", c.Target, c.Proto, c.Method, c.sizeClass(), c.Fail, o.key(), endKind))
 		}
 	}
@@ -1587,7 +1636,7 @@ func (g *c18run) group(base RPCCase, optsList []Opts) {
 			kind = "interceptor-result-not-delivered"
 		}
 		shape := map[string]string{"Echo": "unary", "CS": "cs", "SS": "ss", "Bidi": "bidi"}[c.Method]
-		g.r.Violate(fmt.Sprintf("%s/%s:%s:with=%s:%s", c.Target, c.protoClass(), kind, x.o.key(), shape),
+		g.r.Violate(fmt.Sprintf("%s/%s:%s:with=%s:%s", c.Target, c.protoClass(), kind, x.o.key(), shape)+c.entrySuffix(),
 			fmt.Sprintf("%s %s %s: client-visible outcome with %s differs from the reference run: %s", c.Target, c.Proto, c.Method, x.o.key(), x.what),
 			map[string]any{"part": "rpc", "case": c, "events": x.out.Events, "transcript": x.out.Transcript})
 	}
@@ -1641,7 +1690,7 @@ func shapeIO(method string, size, k, m int) (in, out []int) {
 
 // RunC18 is the interceptor / stats-handler check.
 func RunC18(r *mon.Run) {
-	r.Rule = "scripted RPCs (unary, client-, server-, bidi-streaming) x (gRPC, gRPC-web binary and text, HTTP transcoding with JSON / protobuf bodies, implicit /pkg.Svc/Method binding, body-less GET and POST) x encoded message sizes {0,2,3,4,5,6,100} (a 1-byte protobuf message does not exist) x handler succeeds / fails x the 8 on/off combinations of (recording unary interceptor, recording stream interceptor, recording stats handler), on a locally registered service and on the same service proxied through RegisterConn to a real grpc.Server (reflection v1alpha); plus deciding interceptors (replace reply, deny, override error), larking's NewUnaryContext/NewStreamContext helpers and a WebSocket lane on a real server; plus a message-kind lane (msgkinds.go): methods whose request is URL-only / a whole message / a `body:` selected google.api.HttpBody field / an HttpBody, and whose reply is a message / Empty / HttpBody / a response_body-selected HttpBody or message field, unary and each streaming shape, over HTTP transcoding (JSON, protobuf), gRPC and gRPC-web, payload sizes 0..70000 (thorough: ..1 MiB and PRNG sizes), handler succeeds / fails, with no options / a stats handler / stats handler + recording interceptors. Every handler step, interceptor invocation and stats event of an RPC is appended to one ordered per-RPC log; the client-visible transcript is compared with the transcript of the same (or, for deciding interceptors, the equivalent) script run without options. distinct = (target, protocol, method, size class, fail, option set) cells that were executed and held"
+	r.Rule = "scripted RPCs (unary, client-, server-, bidi-streaming) x (gRPC, gRPC-web binary and text, HTTP transcoding with JSON / protobuf bodies, implicit /pkg.Svc/Method binding, body-less GET and POST) x encoded message sizes {0,2,3,4,5,6,100} (a 1-byte protobuf message does not exist) x handler succeeds / fails x the 8 on/off combinations of (recording unary interceptor, recording stream interceptor, recording stats handler), on a locally registered service and on the same service proxied through RegisterConn to a real grpc.Server (reflection v1alpha); plus deciding interceptors (replace reply, deny, override error), larking's NewUnaryContext/NewStreamContext helpers and a WebSocket lane on a real server; plus a message-kind lane (msgkinds.go): methods whose request is URL-only / a whole message / a `body:` selected google.api.HttpBody field / an HttpBody, and whose reply is a message / Empty / HttpBody / a response_body-selected HttpBody or message field, unary and each streaming shape, over HTTP transcoding (JSON, protobuf), gRPC and gRPC-web, payload sizes 0..70000 (thorough: ..1 MiB and PRNG sizes), handler succeeds / fails, with no options / a stats handler / stats handler + recording interceptors; plus an entry-path lane (entry.go): gRPC / gRPC-web (binary, text) requests of every shape, local and proxied, whose grpc-timeout is valid-and-far-away or malformed in each way (unknown unit, too many digits, no digits, no unit, non-digit, signed), whose grpc-encoding / grpc-accept-encoding is identity / a registered compressor (compressed and plain frames) / unknown / upper-case / a list, and whose content-type carries an explicit, other, unknown or empty codec or a parameter, under 4 option sets: calls the mux refuses without dispatch must have either no stats event or a complete Tag..End trace, dispatched ones go through the full per-RPC oracle, and every transcript equals the one without options. Every handler step, interceptor invocation and stats event of an RPC is appended to one ordered per-RPC log; the client-visible transcript is compared with the transcript of the same (or, for deciding interceptors, the equivalent) script run without options. distinct = (target, protocol, method, size class, fail, option set) cells that were executed and held"
 	r.Floor = r.Pick(400, 600)
 	r.Assume("the unary method handler glue of the harness calls the interceptor it is handed exactly as protoc-gen-go-grpc code does")
 	r.Assume("for proxied RPCs 'the handler' is observed at the back-end: messages it received / sent and the error it returned (or the larking-side interceptor's return value when one is installed)")
@@ -1966,6 +2015,11 @@ func RunC18(r *mon.Run) {
 				}
 			}
 		}
+	}
+	// the gRPC / gRPC-web entry path: header values that make the mux refuse,
+	// or serve differently, before or around the begin of the call (entry.go)
+	for _, c := range entryCases(r.Thorough()) {
+		jobs = append(jobs, job{c, entryOpts})
 	}
 	// thorough: PRNG-generated scripts
 	extra := r.Pick(0, 5200)
